@@ -5,6 +5,7 @@ import (
 	"path"
 	"sort"
 	"strings"
+	"time"
 
 	"verifmc/drv"
 	"verifmc/engine"
@@ -416,6 +417,7 @@ func runC10(c *engine.Ctx) {
 		cfgs = append(cfgs, drv.Config{Kind: drv.MultiDir, NoVersioning: true}, drv.Config{Kind: drv.SingleDir, NoVersioning: true}) // depth 1, see below
 	}
 	cfgs = append(cfgs, drv.Config{Kind: drv.Bolt, AutoBucket: true}, drv.Config{Kind: drv.MultiMem, AutoBucket: true}, drv.Config{Kind: drv.Mem, AutoBucket: true})
+	c.SpecBudget = c.Budget() / time.Duration(len(cfgs))
 	for _, cfg := range cfgs {
 		cfg := cfg
 		name := "C10/" + worldName(cfg)
